@@ -105,8 +105,8 @@ TWINS = [
     ("linear-infer-inline", "gemclus/linear/_linear_geminis.py", [("        H = X @ self.W_ + self.b_\n        return softmax(H)", "        return softmax(X @ self.W_ + self.b_)")]),
     ("sparse-selection-flatnonzero", "gemclus/sparse/_mlp_sparse.py", [("        return np.nonzero(np.linalg.norm(self.W_skip_, axis=1, ord=2))[0]", "        return np.flatnonzero(np.linalg.norm(self.W_skip_, axis=1, ord=2))")]),
     ("mmd-mask-after-clip", "gemclus/gemini/_geomdistances.py",
-     [("        clip_mask = (y_pred > self.epsilon) & (y_pred < (1 - self.epsilon))\n        y_pred = np.clip(y_pred, a_min=self.epsilon, a_max=1 - self.epsilon)\n        N = y_pred.shape[0]",
-       "        y_pred = np.clip(y_pred, a_min=self.epsilon, a_max=1 - self.epsilon)\n        clip_mask = (y_pred > self.epsilon) & (y_pred < (1 - self.epsilon))\n        N = y_pred.shape[0]")]),
+     [("        clip_mask = (y_pred > self.epsilon) & (y_pred < (1 - self.epsilon))\n        y_pred = np.clip(y_pred, a_min=self.epsilon, a_max=1 - self.epsilon)\n\n        N = y_pred.shape[0]",
+       "        y_pred = np.clip(y_pred, a_min=self.epsilon, a_max=1 - self.epsilon)\n        clip_mask = (y_pred > self.epsilon) & (y_pred < (1 - self.epsilon))\n\n        N = y_pred.shape[0]")]),
     ("get-gemini-local", "gemclus/mlp/_mlp_geminis.py",
      [("        return MMDGEMINI(ovo=self.ovo, kernel=self.kernel, kernel_params=self.kernel_params)", "        return MMDGEMINI(kernel=self.kernel, ovo=self.ovo, kernel_params=self.kernel_params)")]),
 ]
